@@ -12,6 +12,7 @@ for d in /tmp/seed/C*-out/mutant-*; do
     *e) prop=${p%e}; id="$prop-w5m$m" ;;
     *f) prop=${p%f}; id="$prop-w6m$m" ;;
     *g) prop=${p%g}; id="$prop-w7m$m" ;;
+    *h) prop=${p%h}; id="$prop-w8m$m" ;;
     *)  prop=$p; id="$p-m$m" ;;
   esac
   [ -f "seeded/$id/meta.json" ] && continue
